@@ -245,10 +245,10 @@ theorem Frame.paths_eq {sel : Path → VarInfo → Bool} {a b : Optimizer α} (h
   simpa [Optim.paths, List.map_map, Function.comp_def] using this
 
 /-- one step of `Optimizer.update` is one step of the hand-written loop on the abstraction -/
-theorem update_simulates [Add α] (tx : NTx α) (sel : Path → VarInfo → Bool) (htx : ShapePreserving tx)
+theorem update_simulates [Add α] (w : Width) (tx : NTx α) (sel : Path → VarInfo → Bool) (htx : ShapePreserving tx)
     (o : Optimizer α) (hwf : (paths o.model).Nodup) (g : NState α) (m : Manual (NState α) (List (OptLeaf α)))
-    (hm : manualStep tx applyUpdatesN (o.abs sel) g = .ok m) :
-    ∃ o', o.update tx sel g = (o', none) ∧ o'.abs sel = m ∧ Frame sel o o' := by
+    (hm : manualStep w tx applyUpdatesN (o.abs sel) g = .ok m) :
+    ∃ o', o.update w tx sel g = (o', none) ∧ o'.abs sel = m ∧ Frame sel o o' := by
   simp only [manualStep, Optimizer.abs] at hm
   cases hu : tx.update g (o.optState.map unwrapLeaf) (stateOf sel o.model) with
   | error e => simp [hu] at hm
@@ -275,7 +275,7 @@ theorem update_simulates [Add α] (tx : NTx α) (sel : Path → VarInfo → Bool
         rw [this]
         simp [List.map_map, Function.comp_def, shape_unwrap]
       obtain ⟨os, hos, hos1, hos2⟩ := updateOptState_ok o.optState s' hshape
-      refine ⟨{ step := o.step + 1, model := o.model.map (writeVar np), optState := os }, ?_, ?_, ?_⟩
+      refine ⟨{ step := incStep w o.step, model := o.model.map (writeVar np), optState := os }, ?_, ?_, ?_⟩
       · simp only [Optimizer.update, hu, ha, hum, hos]
       · subst hm
         simp [Optimizer.abs, w1, hos1]
@@ -285,9 +285,9 @@ theorem update_simulates [Add α] (tx : NTx α) (sel : Path → VarInfo → Bool
         rw [w3 v (List.mem_of_getElem? hv) hs]
 
 /-- an exception in `tx.update` / `optax.apply_updates` is raised before anything was mutated -/
-theorem update_error_atomic [Add α] (tx : NTx α) (sel : Path → VarInfo → Bool) (o : Optimizer α) (g : NState α)
-    (e : Err) (hm : manualStep tx applyUpdatesN (o.abs sel) g = .error e) :
-    o.update tx sel g = (o, some e) := by
+theorem update_error_atomic [Add α] (w : Width) (tx : NTx α) (sel : Path → VarInfo → Bool) (o : Optimizer α) (g : NState α)
+    (e : Err) (hm : manualStep w tx applyUpdatesN (o.abs sel) g = .error e) :
+    o.update w tx sel g = (o, some e) := by
   simp only [manualStep, Optimizer.abs] at hm
   cases hu : tx.update g (o.optState.map unwrapLeaf) (stateOf sel o.model) with
   | error e' =>
@@ -320,8 +320,8 @@ theorem ModelFrame.paths_eq {sel : Path → VarInfo → Bool} {a b : Model α} (
   have := congrArg (List.map Prod.fst) h.keys
   simpa [Optim.paths, List.map_map, Function.comp_def] using this
 
-theorem update_model_frame [Add α] (tx : NTx α) (sel : Path → VarInfo → Bool) (o : Optimizer α)
-    (hwf : (paths o.model).Nodup) (g : NState α) : ModelFrame sel o.model (o.update tx sel g).1.model := by
+theorem update_model_frame [Add α] (w : Width) (tx : NTx α) (sel : Path → VarInfo → Bool) (o : Optimizer α)
+    (hwf : (paths o.model).Nodup) (g : NState α) : ModelFrame sel o.model (o.update w tx sel g).1.model := by
   simp only [Optimizer.update]
   cases hu : tx.update g (o.optState.map unwrapLeaf) (stateOf sel o.model) with
   | error e => exact ModelFrame.refl sel _
@@ -348,15 +348,15 @@ theorem update_model_frame [Add α] (tx : NTx α) (sel : Path → VarInfo → Bo
       simp only [List.getElem?_map, hv, Option.map_some]
       rw [w3 v (List.mem_of_getElem? hv) hs]
 
-theorem run_model_frame [Add α] (tx : NTx α) (sel : Path → VarInfo → Bool) (gs : List (NState α)) :
-    ∀ (o : Optimizer α), (paths o.model).Nodup → ModelFrame sel o.model (o.run tx sel gs).1.model := by
+theorem run_model_frame [Add α] (w : Width) (tx : NTx α) (sel : Path → VarInfo → Bool) (gs : List (NState α)) :
+    ∀ (o : Optimizer α), (paths o.model).Nodup → ModelFrame sel o.model (o.run w tx sel gs).1.model := by
   induction gs with
   | nil => intro o _; exact ModelFrame.refl sel _
   | cons g gs ih =>
     intro o hwf
-    have h1 := update_model_frame tx sel o hwf g
+    have h1 := update_model_frame w tx sel o hwf g
     simp only [Optimizer.run]
-    cases hr : o.update tx sel g with
+    cases hr : o.update w tx sel g with
     | mk o' e =>
       rw [hr] at h1
       cases e with
